@@ -1,12 +1,14 @@
 package main
 
 import (
+	"fmt"
 	"math/big"
 
 	g "github.com/zenon-network/go-zenon/chain/genesis/mock"
 	"github.com/zenon-network/go-zenon/chain/nom"
 	"github.com/zenon-network/go-zenon/common/types"
 	"github.com/zenon-network/go-zenon/verifier"
+	"github.com/zenon-network/go-zenon/wallet"
 )
 
 // ---------------------------------------------------------------------------------------------------
@@ -80,8 +82,44 @@ func syncDeepWarm(c *Ctx, id int) {
 		c.Fail("sync-deep run=%d: producer rollback: %v", id, err)
 		return
 	}
+	// a dormant account with fused plasma (no block of its own that acknowledges a momentum of the last 365): the branch sends it
+	// ZNN, so that after the head replacement a receive block of that account can ACKNOWLEDGE a momentum far below the frontier
+	// (the account chain only demands that acknowledged heights do not decrease) — the C16 step below
+	var dormant *wallet.KeyPair
+	dormantMA := uint64(0)
+	{
+		var cands []*wallet.KeyPair
+		mas := map[types.Address]uint64{}
+		for _, kp := range g.AllKeyPairs[:8] { // the pillars: genesis fusions give each of them plasma
+			fr, _ := a.Chain().GetFrontierAccountStore(kp.Address).Frontier()
+			ma := uint64(0)
+			if fr != nil {
+				ma = fr.MomentumAcknowledged.Height
+			}
+			if ma+366 <= H {
+				cands = append(cands, kp)
+				mas[kp.Address] = ma
+			}
+		}
+		if len(cands) > 0 {
+			dormant = cands[c.R.Intn(len(cands))]
+			dormantMA = mas[dormant.Address]
+		}
+	}
+	var toDormant *nom.AccountBlock
 	sent := 0
 	for _, kp := range g.AllKeyPairs {
+		if dormant != nil && kp.Address == dormant.Address {
+			continue
+		}
+		if dormant != nil && toDormant == nil && keyOf(kp.Address) != nil {
+			if b, err := a.Submit(&nom.AccountBlock{BlockType: nom.BlockTypeUserSend, Address: kp.Address, ToAddress: dormant.Address,
+				TokenStandard: types.ZnnTokenStandard, Amount: big.NewInt(int64(1 + c.R.Intn(100000)))}); err == nil {
+				toDormant = b
+				sent++
+				continue
+			}
+		}
 		if c.R.Intn(3) == 0 {
 			continue
 		}
@@ -178,6 +216,23 @@ func syncDeepWarm(c *Ctx, id int) {
 		c.Fail("sync-deep run=%d: frontier state after the head replacement %s, on a node that only saw the final chain %s", id, x, y)
 		return
 	}
+	// ---- C16 step: "the node never ends up holding a momentum or account block that failed verification" after the head
+	// replacement. The producer is made to confirm a receive block of the dormant account for the send the BRANCH confirmed at
+	// height H (a reorganised height) that acknowledges a momentum V at least 360 below the frontier whose view the warm follower
+	// had materialised before: as of V the send does not exist, the block fails verification (from-block missing) on every node
+	// that only saw the final chain. Built as a hostile producer would: a valid receive (acknowledging the frontier) whose
+	// acknowledged momentum is then replaced, re-hashed, re-signed by the account's key and forced into the producer's pool.
+	if toDormant != nil {
+		var vs []uint64
+		for _, h := range heights {
+			if h >= 1 && h >= dormantMA && h+360 <= H {
+				vs = append(vs, h)
+			}
+		}
+		if len(vs) > 0 && !syncDeepHostileReceive(c, id, a, warm, cold, dormant, toDormant, vs[c.R.Intn(len(vs))], H) {
+			return
+		}
+	}
 	compare := func(tag string) bool {
 		for _, h := range heights {
 			if h < 1 || h >= H {
@@ -210,4 +265,94 @@ func syncDeepWarm(c *Ctx, id int) {
 		return
 	}
 	c.Hit("deep-history")
+}
+
+// syncDeepHostileReceive: see the C16 step of syncDeepWarm. Returns false when the scenario must stop (a violation was reported
+// or a follower's chain moved).
+func syncDeepHostileReceive(c *Ctx, id int, a *Node, warm, cold *zFollower, X *wallet.KeyPair, send *nom.AccountBlock, vh, H uint64) bool {
+	if confirmedAt, _ := a.Chain().GetFrontierMomentumStore().GetBlockConfirmationHeight(send.Hash); confirmedAt != H {
+		c.Hit("deep-c16-send-not-at-reorganised-height")
+		return true
+	}
+	vm, _ := a.Chain().GetFrontierMomentumStore().GetMomentumByHeight(vh)
+	if vm == nil {
+		return true
+	}
+	var tx *nom.AccountBlockTransaction
+	var err error
+	if p := safely(func() {
+		tx, err = a.Sup.GenerateFromTemplate(&nom.AccountBlock{BlockType: nom.BlockTypeUserReceive, Address: X.Address, FromBlockHash: send.Hash}, X.Signer)
+	}); p != "" || err != nil || tx == nil {
+		c.Hit("deep-c16-receive-not-built")
+		return true
+	}
+	r := tx.Block
+	r.MomentumAcknowledged = vm.Identifier()
+	r.Hash = r.ComputeHash()
+	r.Signature = X.Sign(r.Hash.Bytes())
+	// reference verdict: the node that only ever saw the final chain, asked the way gossip asks
+	var coldErr error
+	if p := safely(func() { _, coldErr = cold.sup.ApplyBlock(r) }); p != "" {
+		coldErr = fmt.Errorf("panic: %s", p)
+	}
+	if coldErr == nil {
+		c.Hit("deep-c16-receive-valid-on-cold-node")
+		return true
+	}
+	if p := safely(func() {
+		ins := a.Chain().AcquireInsert("zvh sync-deep hostile receive")
+		err = a.Chain().AddAccountBlockTransaction(ins, tx)
+		ins.Unlock()
+	}); p != "" || err != nil {
+		c.Hit("deep-c16-receive-not-pooled")
+		return true
+	}
+	if _, err := a.Momentum(); err != nil {
+		c.Hit("deep-c16-momentum-not-produced")
+		return true
+	}
+	bad := serveChain(a, H+2, H+2)
+	holds := false
+	if bad != nil {
+		for _, b := range bad[0].AccountBlocks {
+			if b.Hash == r.Hash {
+				holds = true
+			}
+		}
+	}
+	if !holds {
+		c.Hit("deep-c16-momentum-without-the-receive")
+		return true
+	}
+	c.Hit("deep-c16-hostile-momentum-built")
+	what := fmt.Sprintf("momentum %d:%s confirming the receive block %s#%d:%s of send %s (confirmed at height %d by the adopted two-momentum branch) that acknowledges momentum %d, %d below the frontier",
+		H+2, h8(bad[0].Momentum.Hash), addrName(X.Address), r.Height, h8(r.Hash), h8(send.Hash), H, vh, H+1-vh)
+	// the cold node first: it must refuse, else the input is not what it is meant to be
+	cidx, cerr := cold.InsertChain(serveChain(a, H+2, H+2))
+	if cerr == nil || cold.Height() != H+1 {
+		c.Fail("C16 sync-deep run=%d: a node that only saw the final chain adopted %s although the block alone fails verification there (%v): index=%d err=%v frontier=%d",
+			id, what, coldErr, cidx, cerr, cold.Height())
+		return false
+	}
+	widx, werr := warm.InsertChain(bad)
+	wst := warm.ch.GetFrontierMomentumStore()
+	held, _ := wst.GetAccountBlockByHash(r.Hash)
+	if werr == nil || warm.Height() != H+1 || held != nil {
+		c.Fail("C16 sync-deep run=%d: the node that had replaced its head (views of old momentums materialised before) ADOPTED %s: InsertChain index=%d err=%v frontier=%d holds-the-block=%v — "+
+			"the block fails verification on a node that only saw the same chain (%v; its InsertChain: index=%d err=%v): re-verification of this node's final chain on a fresh node fails at height %d",
+			id, what, widx, werr, warm.Height(), held != nil, coldErr, cidx, cerr, H+2)
+		return false
+	}
+	c.Hit("deep-c16-hostile-momentum-refused-by-both")
+	return true
+}
+
+// Stream `sync-deep`: the deep scenario of the `sync` stream on its own (registered for C16: the scenario ends with a hostile
+// momentum delivered to a node whose far views were materialised before a head replacement).
+func init() {
+	register("sync-deep", func(c *Ctx) {
+		for i := 0; i < c.N; i++ {
+			syncDeepWarm(c, i)
+		}
+	})
 }
